@@ -83,7 +83,7 @@ class index:
         self._states.clear()
 
     def push_state(self):
-        self._states.append(self.working_phil.fetch())
+        self._states.append(self.master_phil.fetch(source=self.working_phil))
         return len(self._states) - 1
 
     def pop_state(self):
@@ -100,7 +100,7 @@ class index:
         if len(self._states) == 0:
             pass
         else:
-            self.working_phil = self._states[index].fetch()
+            self.working_phil = self.master_phil.fetch(source=self._states[index])
             self.rebuild_index()
             self._phil_has_changed = True
             self.params = None
